@@ -126,6 +126,14 @@ CHECKS["C07"] = dict(
     note="Definedness is computed from harvested table keys (single characters and ranges). Three known findings (Nemeth menclose arrows, uncovered <none/> reaching the default rule, table row separator taken for a highlight) are listed.",
 )
 
+CHECKS["C15"] = dict(
+    category="model_checking",
+    technique="TLA+ model of the rule-file search (Locate.tla / LocateOps.tla: get_language_dir, unzip_files, find_file with its style-file and default-language fallbacks) model-checked by TLC over every directory tree of a small universe; the trees realised on disk and the library's resolved paths (prefs_dump hook) validated against the model by TLC (Trace_Locate.tla); on the shipped Rules every language tag x style x code resolution, loaded-equals-resolved after in-session switches (cache_state hook), and speech / overview / navigation / braille of an element-kind corpus under every language x style x verbosity x code judged by TLC (Trace_Speech.tla)",
+    text="Design: for every tree with a complete default language and code, every selection resolves every file, a region without rule files resolves like its language, an unknown language like English, a file the language has is never taken from English, the style file stays in the language; the pinned commit's search (an empty directory is a language; '-' always splits) is refuted. Implementation: all 2 080 trees of the universe x selections replayed on disk (paths must be among the model's); the shipped tree: 17 language tags (shipped, region missing, unknown, directory without files) x 3 styles x codes; 15-step in-session switching sequences where the first file of every loaded table must be the resolved one; 42 language x style x verbosity configurations x rotating codes (all 8 codes for Medium in thorough) over 57 element-kind expressions plus 25 (quick) / 300 (thorough) suite expressions: every getter answers Ok and is not blank; fallback tags give the outputs of what they fall back to when the number separators agree.",
+    design_ref="DESIGN.md section 5 C15",
+    note="Generated trees hold stub files (only the search is replayed there). 'Any style file' depends on directory order, the model allows each. Evidence lists which rules of each file matched (rule_match hook). Three known findings (hyphenated braille code, English zoom into a labelled row, lone block separator) are listed and their examples judged in every run.",
+)
+
 NOT_YET = {}
 
 
